@@ -2,7 +2,7 @@
 import functools
 import itertools
 
-from .. import common, cmakegen, modsearch, pipeline, statespace
+from .. import common, cmakegen, modsearch, pipeline, reflex, statespace
 from .C01 import INDENTS
 
 ID = "C04"
@@ -82,12 +82,20 @@ def check_module(job):
             return
         n += 1
         digs.add(common.digest(text))
+        # the variant generator is validated first: CMake's view of the commands must be unchanged
+        try:
+            cmds = [(nm.lower(), a) for nm, a, _ in reflex.parse(text)]
+        except reflex.LexError as ex:
+            raise common.HarnessFault(f"layout variant is not valid CMake ({ex}) [{label}]: {text[:300]!r}")
+        if cmds != base_cmds:
+            raise common.HarnessFault(f"layout variant changes the command sequence [{label}]")
         p, e = page_of(text)
         if p is None:
             viol.append((label, f"error: variant is rejected: {e}   [{label}]", text, crlf))
         elif (norm_crlf(p) != norm_crlf(base)) if crlf else (p != base):
             viol.append((label, f"differs: output changes under a token-preserving edit   [{label}]", text, crlf))
 
+    base_cmds = [(nm.lower(), a) for nm, a, _ in reflex.parse(base_text)]
     if base is None:
         return {"viol": [f"error: default layout rejected: {err}"], "n": 1, "obs": None, "nt": None, "cls": "error"}
     toks, kinds = cmakegen.flat_tokens(its, cmakegen.DEFAULT_LAYOUT)
